@@ -31,6 +31,11 @@ def plan(tier, seed):
                       "cfg_over": {"max_T": 4}, "force": {"aux_params": i % 2 == 0, "period_utility": i % 3 == 0, "scalar_aux": i % 3 == 1},
                       "agents": [1, 2, 7, 64][i % 4], "force_T": [None, 1, None, None, 2][i % 5],
                       "n_target_sets": 2 if tier == "quick" else 3, "env": {"VERIF_X64": "1"}})
+    # panels with more than 2**14 rows that are not a multiple of it (block-wise post-processing)
+    for i in range(4 if tier == "quick" else 16):
+        cases.append({"index": 2 * i, "seed": [seed, 42, i], "cfg": "quick", "cfg_over": {"max_T": 4, "min_T": 3, "max_cells": 3000, "max_cont_choice_pts": 5},
+                      "force": {"aux_params": True, "period_utility": True, "scalar_aux": False, "stochastic": False, "two_stochastic": False},
+                      "agents": [6000, 9001][i % 2], "force_T": None, "n_target_sets": 1, "big_panel": True, "env": {"VERIF_X64": "1"}})
     return cases
 
 
@@ -113,7 +118,7 @@ def run_case(case):
     cnt["c13_target_cells"] = ncells
     res["violations"] += simcheck.drain_argument_mutations()
     res["status"] = "violated" if res["violations"] else "held"
-    res["features"] = {**{k: bool(v) for k, v in realised.items()}, f"N{N}": True, f"T{ref.T}": True}
+    res["features"] = {**{k: bool(v) for k, v in realised.items()}, f"N{N}": True, f"T{ref.T}": True, "rows_gt_16384": bool(N * ref.T > 16384)}
     res["sig"] = f"{dsl.shape_signature(desc)}#{pipeline.param_hash(params)}#N{N}#{len(subsets)}"
     res["nontrivial"] = bool(N * ref.T >= 2 and ncells > 0)
     res["sample"] = {"desc": {k: v for k, v in desc.items() if k not in ("tables", "params")}, "agents": N,
